@@ -2,8 +2,8 @@ package main
 
 func init() {
 	regWorld(&World{Name: "wti", Pkg: "google.golang.org/grpc/internal/transport", Mounts: map[string]string{"internal/transport": "sim/wti"}})
-	selftestProps = append(selftestProps, "C17")
-	regProp("C17", wti(2500, "internal/transport.writeQuota (flowcontrol.go: init/get/realReplenish), function-style atomics rewritten to yielding ones").doc(
+	selftestProps = append(selftestProps, "C17wti")
+	regProp("C17wti", wti(2500, "internal/transport.writeQuota (flowcontrol.go: init/get/realReplenish), function-style atomics rewritten to yielding ones").doc(
 		"Seeded search over interleavings of one sender per stream calling the real writeQuota.get, a loopy-role goroutine calling replenish in chunks, and stream termination (done closed); every atomic, channel operation and select is a scheduling point. Checked at every quiescent point: a sender inside get while quota > 0 or after done is a lost wake-up; quota always equals initial - granted + replenished and is back at the initial value when everything scheduled was written. Sampling, not proof.",
 		"Covers the writeQuota clause of C17 only (get/replenish/done, quota back to initial). The NewStream/stream-quota clause (streamsQuotaAvailable) needs a whole client transport against a scripted peer and is handled in the scripted-peer world. One sender per stream is assumed (gRPC forbids concurrent SendMsg on a stream; with two senders the one-slot channel can legitimately leave one waiting).",
 		"seeded schedule search over the real writeQuota with a byte ledger"))
